@@ -1,4 +1,589 @@
 import OtelVerif.Model.C05
-/-! C05 property theorems (stub) -/
+/-!
+# C05 — retry resends only the retryable remainder, within limits, never after a verdict
+
+Property theorems about `run` (the model of `retrySender.Send` over the timeout sender and a scripted
+backend, `Model/C05.lean`).  Every theorem quantifies over all configurations, all environments
+(deadline / cancellation / shutdown instants), all scripts of backend outcomes of any length, all
+payloads and all library draws; no size bound anywhere.
+
+Convention for equal instants (DESIGN §C05, outside the theorem): an event that falls on exactly the
+instant the back-off timer fires does not interrupt that wait; an event that is already pending when
+the wait begins does.
+-/
 namespace OtelVerif.C05
+
+/-! ## the retry condition, declaratively -/
+
+/-- the next attempt at `fin + w` fits the elapsed-time budget and the deadline, and neither shutdown
+nor cancellation has arrived before it -/
+def FitsAll (c : Cfg) (e : Env) (fin w : Nat) : Prop :=
+  (c.maxElapsed = 0 ∨ fin + w ≤ c.maxElapsed) ∧
+  (∀ d, e.deadline = some d → fin + w ≤ d ∧ fin < d) ∧
+  (∀ s, e.shutdown = some s → fin + w ≤ s ∧ fin < s) ∧
+  (∀ x, e.cancel = some x → fin + w ≤ x ∧ fin < x)
+
+theorem C05_afterFailure_none_iff (c : Cfg) (e : Env) (fin w : Nat) : afterFailure c e fin w = none ↔ FitsAll c e fin w := by
+  obtain ⟨dl, cn, sd⟩ := e
+  rcases Nat.eq_zero_or_pos c.maxElapsed with hE | hE
+  · cases dl <;> cases cn <;> cases sd <;> simp [afterFailure, FitsAll, olt, ole, Env.ctxDone, omin, hE]
+    all_goals (repeat' split) <;> (try simp) <;> omega
+  · cases dl <;> cases cn <;> cases sd <;> simp [afterFailure, FitsAll, olt, ole, Env.ctxDone, omin, hE]
+    all_goals (repeat' split) <;> (try simp) <;> omega
+
+/-- the planned wait after attempt `a` when the library's `currentInterval` is `cur` -/
+def waitAfter (c : Cfg) (cur : Nat) (a : Attempt) : Nat := waitOf c (curInterval c cur) a
+
+/-- the property's retry condition for an attempt that started at `now` and returned at `fin`:
+retrying enabled, the outcome neither success nor permanent, the next attempt fits budget and
+deadline, no shutdown / cancellation before it -/
+def RetryCond (c : Cfg) (e : Env) (now cur : Nat) (a : Attempt) (fin : Nat) : Prop :=
+  finish c e now a = some fin ∧ c.enabled = true ∧ a.ok = false ∧ a.perm = false ∧ FitsAll c e fin (waitAfter c cur a)
+
+/-! ## one round of the loop -/
+
+theorem run_first_call (c : Cfg) (e : Env) (now cur : Nat) (p : List Nat) (s : List Attempt) :
+    ∃ fin rest, (run c e now cur p s).calls = ⟨now, fin, p⟩ :: rest := by
+  cases s with
+  | nil => exact ⟨now, [], by simp [run]⟩
+  | cons a as =>
+    simp only [run]
+    split
+    · exact ⟨_, _, rfl⟩
+    · split
+      · exact ⟨_, _, rfl⟩
+      · split
+        · exact ⟨_, _, rfl⟩
+        · split
+          · exact ⟨_, _, rfl⟩
+          · split
+            · exact ⟨_, _, rfl⟩
+            · exact ⟨_, _, rfl⟩
+
+theorem run_retry {c : Cfg} {e : Env} {now cur : Nat} {p : List Nat} {a : Attempt} {as : List Attempt} {fin : Nat}
+    (h : RetryCond c e now cur a fin) :
+    run c e now cur p (a :: as) =
+      { run c e (fin + waitAfter c cur a) (nextCur c (curInterval c cur)) (a.rest.getD p) as with
+        calls := ⟨now, fin, p⟩ :: (run c e (fin + waitAfter c cur a) (nextCur c (curInterval c cur)) (a.rest.getD p) as).calls } := by
+  obtain ⟨h1, h2, h3, h4, h5⟩ := h
+  have h5' := (C05_afterFailure_none_iff c e fin _).2 h5
+  simp only [waitAfter] at h5' ⊢
+  simp [run, h1, h2, h3, h4, h5']
+
+theorem run_single {c : Cfg} {e : Env} {now cur : Nat} {p : List Nat} {a : Attempt} {as : List Attempt}
+    (h : ¬ ∃ fin, RetryCond c e now cur a fin) : (run c e now cur p (a :: as)).calls.length = 1 := by
+  simp only [run]
+  split
+  · rfl
+  · rename_i fin hfin
+    split
+    · rfl
+    · split
+      · rfl
+      · split
+        · rfl
+        · split
+          · rfl
+          · rename_i hok hen hperm _ haf
+            exfalso
+            apply h
+            refine ⟨fin, hfin, ?_, ?_, ?_, ?_⟩
+            · simpa using hen
+            · simpa using hok
+            · simpa using hperm
+            · exact (C05_afterFailure_none_iff c e fin _).1 haf
+
+/-- **retry iff** (one round): a further attempt follows attempt `a` exactly when the retry condition holds -/
+theorem C05_retry_iff (c : Cfg) (e : Env) (now cur : Nat) (p : List Nat) (a : Attempt) (as : List Attempt) :
+    2 ≤ (run c e now cur p (a :: as)).calls.length ↔ ∃ fin, RetryCond c e now cur a fin := by
+  constructor
+  · intro h
+    by_cases hc : ∃ fin, RetryCond c e now cur a fin
+    · exact hc
+    · rw [run_single hc] at h; omega
+  · rintro ⟨fin, h⟩
+    rw [run_retry h]
+    obtain ⟨f, r, hr⟩ := run_first_call c e (fin + waitAfter c cur a) (nextCur c (curInterval c cur)) (a.rest.getD p) as
+    simp [hr]
+
+/-- **wait and remainder** (one round): when attempt `a` is retried, the next attempt starts exactly
+`waitAfter` after `a` returned and carries the remainder named by the failure, else the same payload -/
+theorem C05_next_attempt {c : Cfg} {e : Env} {now cur : Nat} {p : List Nat} {a : Attempt} {as : List Attempt} {fin : Nat}
+    (h : RetryCond c e now cur a fin) :
+    ∃ fin' rest, (run c e now cur p (a :: as)).calls =
+      ⟨now, fin, p⟩ :: ⟨fin + waitAfter c cur a, fin', a.rest.getD p⟩ :: rest := by
+  rw [run_retry h]
+  obtain ⟨f, r, hr⟩ := run_first_call c e (fin + waitAfter c cur a) (nextCur c (curInterval c cur)) (a.rest.getD p) as
+  exact ⟨f, r, by simp [hr]⟩
+
+/-- **verdict is final** (one round): after success or a permanent error no further attempt is made -/
+theorem C05_verdict_final_head (c : Cfg) (e : Env) (now cur : Nat) (p : List Nat) (a : Attempt) (as : List Attempt)
+    (h : a.ok = true ∨ a.perm = true) : (run c e now cur p (a :: as)).calls.length = 1 := by
+  apply run_single
+  rintro ⟨fin, _, _, h3, h4, _⟩
+  rcases h with h | h <;> simp_all
+
+theorem C05_disabled (c : Cfg) (e : Env) (now cur : Nat) (p : List Nat) (s : List Attempt) (h : c.enabled = false) :
+    (run c e now cur p s).calls.length = 1 := by
+  cases s with
+  | nil => simp [run]
+  | cons a as =>
+    apply run_single
+    rintro ⟨fin, _, h2, _⟩
+    simp_all
+
+/-! ## every position of the trace -/
+
+/-- the library's `currentInterval` after `k` more `NextBackOff` calls -/
+def curAfter (c : Cfg) : Nat → Nat → Nat
+  | cur, 0 => cur
+  | cur, k + 1 => curAfter c (nextCur c (curInterval c cur)) k
+
+theorem curAfter_succ (c : Cfg) (cur k : Nat) : curAfter c cur (k + 1) = nextCur c (curInterval c (curAfter c cur k)) := by
+  induction k generalizing cur with
+  | zero => simp [curAfter]
+  | succ k ih => rw [curAfter, ih]; rfl
+
+theorem curAfter_zero_eq_curSeq (c : Cfg) (k : Nat) : curAfter c 0 k = curSeq c k := by
+  induction k with
+  | zero => rfl
+  | succ k ih => rw [curAfter_succ, ih]; rfl
+
+/-- the trace from its `k`-th call on is the trace of the loop started in the state reached there -/
+theorem run_suffix (c : Cfg) (e : Env) (k : Nat) : ∀ (now cur : Nat) (p : List Nat) (s : List Attempt),
+    k < (run c e now cur p s).calls.length →
+    ∃ now' p', (run c e now cur p s).calls.drop k = (run c e now' (curAfter c cur k) p' (s.drop k)).calls ∧
+      (run c e now cur p s).reason = (run c e now' (curAfter c cur k) p' (s.drop k)).reason ∧
+      (run c e now cur p s).tEnd = (run c e now' (curAfter c cur k) p' (s.drop k)).tEnd ∧
+      (run c e now cur p s).sdFlag = (run c e now' (curAfter c cur k) p' (s.drop k)).sdFlag := by
+  induction k with
+  | zero => intro now cur p s _; exact ⟨now, p, by simp [curAfter]⟩
+  | succ k ih =>
+    intro now cur p s hk
+    cases s with
+    | nil => simp [run] at hk
+    | cons a as =>
+      by_cases hc : ∃ fin, RetryCond c e now cur a fin
+      · obtain ⟨fin, hc⟩ := hc
+        rw [run_retry hc] at hk ⊢
+        simp only [List.length_cons, Nat.add_lt_add_iff_right] at hk
+        obtain ⟨now', p', h1, h2, h3, h4⟩ := ih _ _ _ _ hk
+        exact ⟨now', p', by simpa [curAfter] using h1, by simpa [curAfter] using h2, by simpa [curAfter] using h3,
+          by simpa [curAfter] using h4⟩
+      · rw [run_single hc] at hk; omega
+
+/-- **retry iff, at every position**: the `k`-th attempt is followed by another one exactly when the
+script has an outcome for it and the retry condition holds for that outcome in the state reached;
+then the next attempt starts exactly `waitAfter` later and carries the named remainder. -/
+theorem C05_retry_iff_all (c : Cfg) (e : Env) (p : List Nat) (s : List Attempt) (k : Nat)
+    (hk : k < (send c e p s).calls.length) :
+    ∃ now' p' fin', (send c e p s).calls[k]? = some ⟨now', fin', p'⟩ ∧
+      ((k + 1 < (send c e p s).calls.length) ↔ ∃ a fin, s[k]? = some a ∧ RetryCond c e now' (curSeq c k) a fin) ∧
+      (∀ a fin, s[k]? = some a → RetryCond c e now' (curSeq c k) a fin →
+        fin' = fin ∧ ∃ f2, (send c e p s).calls[k + 1]? = some ⟨fin + waitAfter c (curSeq c k) a, f2, a.rest.getD p'⟩) := by
+  obtain ⟨now', p', h1, -, -, -⟩ := run_suffix c e k 0 0 p s hk
+  rw [curAfter_zero_eq_curSeq] at h1
+  have hlen : ((send c e p s).calls.drop k).length = (send c e p s).calls.length - k := List.length_drop
+  have hget : ∀ j, (send c e p s).calls[k + j]? = ((send c e p s).calls.drop k)[j]? := by
+    intro j; simp [List.getElem?_drop]
+  unfold send at hlen hget hk ⊢
+  cases hs : s.drop k with
+  | nil =>
+    rw [hs] at h1
+    have hnone : s[k]? = none := by
+      have : s.length ≤ k := by simpa using List.drop_eq_nil_iff.mp hs
+      simp [this]
+    refine ⟨now', p', now', ?_, ?_, ?_⟩
+    · have := hget 0; simp only [Nat.add_zero] at this; rw [this, h1]; simp [run]
+    · rw [h1] at hlen; simp only [run, List.length_cons, List.length_nil] at hlen
+      constructor
+      · intro h; omega
+      · rintro ⟨a, fin, ha, _⟩; simp [hnone] at ha
+    · intro a fin ha; simp [hnone] at ha
+  | cons a as =>
+    rw [hs] at h1
+    have hsome : s[k]? = some a := by
+      have := congrArg List.head? hs
+      simpa [List.head?_drop] using this
+    by_cases hc : ∃ fin, RetryCond c e now' (curSeq c k) a fin
+    · obtain ⟨fin, hc⟩ := hc
+      obtain ⟨f2, rest, hcalls⟩ := C05_next_attempt (p := p') (as := as) hc
+      rw [hcalls] at h1
+      refine ⟨now', p', fin, ?_, ?_, ?_⟩
+      · have := hget 0; simp only [Nat.add_zero] at this; rw [this, h1]; simp
+      · rw [h1] at hlen; simp only [List.length_cons] at hlen
+        constructor
+        · intro _; exact ⟨a, fin, hsome, hc⟩
+        · intro _; omega
+      · intro a' fin' ha' hc'
+        rw [hsome] at ha'; cases ha'
+        have : fin' = fin := by
+          have h1' := hc'.1; have h2' := hc.1; rw [h1'] at h2'; exact Option.some.inj h2'
+        subst this
+        exact ⟨rfl, f2, by rw [hget 1, h1]; simp⟩
+    · obtain ⟨f, rest, hfc⟩ := run_first_call c e now' (curSeq c k) p' (a :: as)
+      have hl := run_single (p := p') (as := as) hc
+      rw [hfc] at hl h1
+      refine ⟨now', p', f, ?_, ?_, ?_⟩
+      · have := hget 0; simp only [Nat.add_zero] at this; rw [this, h1]; simp
+      · rw [h1] at hlen
+        constructor
+        · intro h; omega
+        · rintro ⟨a', fin, ha', hc'⟩
+          rw [hsome] at ha'; cases ha'
+          exact absurd ⟨fin, hc'⟩ hc
+      · intro a' fin ha' hc'
+        rw [hsome] at ha'; cases ha'
+        exact absurd ⟨fin, hc'⟩ hc
+
+/-- **verdict is final**: no attempt follows an attempt whose outcome was success or a permanent error,
+wherever it occurs in the script -/
+theorem C05_verdict_final (c : Cfg) (e : Env) (p : List Nat) (s : List Attempt) (k : Nat) (a : Attempt)
+    (ha : s[k]? = some a) (hv : a.ok = true ∨ a.perm = true) : (send c e p s).calls.length ≤ k + 1 := by
+  by_cases hk : k + 1 < (send c e p s).calls.length
+  · obtain ⟨now', p', fin', _, h2, _⟩ := C05_retry_iff_all c e p s k (by omega)
+    obtain ⟨a', fin, ha', _, _, h3, h4, _⟩ := h2.1 hk
+    rw [ha] at ha'; cases ha'
+    rcases hv with h | h <;> simp_all
+  · omega
+
+/-! ## no retry starts after shutdown, cancellation, the deadline or the elapsed-time budget -/
+
+theorem retry_instants (c : Cfg) (e : Env) (P : Nat → Prop) (hP : ∀ fin w, FitsAll c e fin w → P (fin + w)) :
+    ∀ (s : List Attempt) (now cur : Nat) (p : List Nat), ∀ cl ∈ (run c e now cur p s).calls.tail, P cl.t := by
+  intro s
+  induction s with
+  | nil => intro now cur p cl h; simp [run] at h
+  | cons a as ih =>
+    intro now cur p cl h
+    by_cases hc : ∃ fin, RetryCond c e now cur a fin
+    · obtain ⟨fin, hc⟩ := hc
+      rw [run_retry hc] at h
+      simp only [List.tail_cons] at h
+      obtain ⟨f, rest, hr⟩ := run_first_call c e (fin + waitAfter c cur a) (nextCur c (curInterval c cur)) (a.rest.getD p) as
+      have ih' := ih (fin + waitAfter c cur a) (nextCur c (curInterval c cur)) (a.rest.getD p)
+      rw [hr] at h ih'
+      rcases List.mem_cons.mp h with h | h
+      · subst h; exact hP _ _ hc.2.2.2.2
+      · exact ih' cl (by simpa using h)
+    · have hl := run_single (p := p) (as := as) hc
+      match hcs : (run c e now cur p (a :: as)).calls, hl with
+      | [x], _ => rw [hcs] at h; simp at h
+
+/-- no retry begins after the exporter started shutting down -/
+theorem C05_no_attempt_after_shutdown (c : Cfg) (e : Env) (p : List Nat) (s : List Attempt) (sd : Nat)
+    (h : e.shutdown = some sd) : ∀ cl ∈ (send c e p s).calls.tail, cl.t ≤ sd :=
+  retry_instants c e (fun t => t ≤ sd) (fun _ _ hf => (hf.2.2.1 sd h).1) s 0 0 p
+
+/-- no retry begins after the request context was cancelled -/
+theorem C05_no_attempt_after_cancel (c : Cfg) (e : Env) (p : List Nat) (s : List Attempt) (x : Nat)
+    (h : e.cancel = some x) : ∀ cl ∈ (send c e p s).calls.tail, cl.t ≤ x :=
+  retry_instants c e (fun t => t ≤ x) (fun _ _ hf => (hf.2.2.2 x h).1) s 0 0 p
+
+/-- every retry fits the request's deadline -/
+theorem C05_no_attempt_after_deadline (c : Cfg) (e : Env) (p : List Nat) (s : List Attempt) (d : Nat)
+    (h : e.deadline = some d) : ∀ cl ∈ (send c e p s).calls.tail, cl.t ≤ d :=
+  retry_instants c e (fun t => t ≤ d) (fun _ _ hf => (hf.2.1 d h).1) s 0 0 p
+
+/-- every retry fits the configured elapsed-time budget -/
+theorem C05_no_attempt_after_budget (c : Cfg) (e : Env) (p : List Nat) (s : List Attempt)
+    (h : 0 < c.maxElapsed) : ∀ cl ∈ (send c e p s).calls.tail, cl.t ≤ c.maxElapsed :=
+  retry_instants c e (fun t => t ≤ c.maxElapsed) (fun _ _ hf => by rcases hf.1 with h0 | h0 <;> omega) s 0 0 p
+
+/-! ## the wait: at least the throttle delay, otherwise inside the back-off envelope -/
+
+theorem C05_wait_ge_throttle (c : Cfg) (cur : Nat) (a : Attempt) (th : Nat) (h : a.throttle = some th) :
+    th ≤ waitAfter c cur a := by
+  simp only [waitAfter, waitOf, h]; omega
+
+/-- without a throttle delay the wait is the library's value: the interval itself when `rf = 0`,
+else the drawn value, which the library keeps within `interval·(1 ± rf)` (`LibLaw`) -/
+theorem C05_wait_envelope (c : Cfg) (cur : Nat) (a : Attempt) (h : a.throttle = none)
+    (hlaw : c.rfNum ≠ 0 → LibLaw c (curInterval c cur) a.drawn) :
+    curInterval c cur * (c.rfDen - c.rfNum) ≤ (waitAfter c cur a + 1) * c.rfDen ∧
+    waitAfter c cur a * c.rfDen ≤ curInterval c cur * (c.rfDen + c.rfNum) + c.rfDen := by
+  by_cases h0 : c.rfNum = 0
+  · simp only [waitAfter, waitOf, h, backoffDelay, h0, if_true, Nat.sub_zero, Nat.add_zero, Nat.succ_mul]
+    omega
+  · have := hlaw h0
+    unfold LibLaw at this
+    simpa only [waitAfter, waitOf, h, backoffDelay, h0, if_false] using this
+
+theorem C05_wait_exact_when_not_randomised (c : Cfg) (cur : Nat) (a : Attempt) (h : a.throttle = none) (h0 : c.rfNum = 0) :
+    waitAfter c cur a = curInterval c cur := by
+  simp [waitAfter, waitOf, h, backoffDelay, h0]
+
+theorem nextCur_le (c : Cfg) (iv : Nat) : nextCur c iv ≤ c.maxInt := by
+  unfold nextCur
+  split
+  · exact Nat.le_refl _
+  · rename_i h
+    by_cases hd : c.mulDen = 0
+    · simp [hd]
+    · have h' : iv * c.mulNum < c.mulDen * c.maxInt := by rw [Nat.mul_comm c.mulDen]; omega
+      exact Nat.le_of_lt (Nat.div_lt_of_lt_mul h')
+
+/-- the un-randomised interval never exceeds `max(initial_interval, max_interval)` -/
+theorem C05_interval_le (c : Cfg) (n : Nat) : interval c n ≤ max c.initial c.maxInt := by
+  unfold interval curInterval
+  split
+  · exact Nat.le_max_left _ _
+  · cases n with
+    | zero => simp [curSeq] at *
+    | succ n => exact Nat.le_trans (nextCur_le c _) (Nat.le_max_right _ _)
+
+/-- for the usual configurations (positive initial interval not above the cap, multiplier ≥ 1) the
+interval sequence is the exponential one: `i₀ = initial`, `iₙ₊₁ = min (iₙ·multiplier) max_interval` (truncated) -/
+theorem C05_interval_exponential (c : Cfg) (h0 : 0 < c.initial) (h1 : c.initial ≤ c.maxInt)
+    (hd : 0 < c.mulDen) (hm : c.mulDen ≤ c.mulNum) :
+    interval c 0 = c.initial ∧ ∀ n, 0 < interval c n ∧ interval c (n + 1) = min (interval c n * c.mulNum / c.mulDen) c.maxInt := by
+  have hpos : ∀ n, 0 < interval c n := by
+    intro n
+    induction n with
+    | zero => simp [interval, curSeq, curInterval, h0]
+    | succ n ih =>
+      show 0 < curInterval c (nextCur c (interval c n))
+      unfold curInterval
+      split
+      · exact h0
+      · omega
+  refine ⟨by simp [interval, curSeq, curInterval], fun n => ⟨hpos n, ?_⟩⟩
+  have hp := hpos n
+  show curInterval c (nextCur c (interval c n)) = _
+  have hge : interval c n ≤ interval c n * c.mulNum / c.mulDen := by
+    apply (Nat.le_div_iff_mul_le hd).2
+    exact Nat.mul_le_mul_left _ hm
+  have hM : 0 < c.maxInt := by omega
+  have hnext : nextCur c (interval c n) = min (interval c n * c.mulNum / c.mulDen) c.maxInt := by
+    unfold nextCur
+    split
+    · rename_i h
+      have : c.maxInt ≤ interval c n * c.mulNum / c.mulDen := (Nat.le_div_iff_mul_le hd).2 h
+      omega
+    · rename_i h
+      have h' : interval c n * c.mulNum < c.mulDen * c.maxInt := by rw [Nat.mul_comm c.mulDen]; omega
+      have := Nat.div_lt_of_lt_mul h'
+      omega
+  rw [hnext]
+  unfold curInterval
+  split
+  · rename_i hz; omega
+  · rfl
+
+/-! ## shutdown classification -/
+
+theorem C05_sdFlag_iff (c : Cfg) (e : Env) (s : List Attempt) : ∀ (now cur : Nat) (p : List Nat),
+    (run c e now cur p s).sdFlag = true ↔ (run c e now cur p s).reason = .shutdown := by
+  induction s with
+  | nil => intro now cur p; simp [run]
+  | cons a as ih =>
+    intro now cur p
+    simp only [run]
+    split
+    · simp
+    · split
+      · simp
+      · split
+        · simp
+        · split
+          · simp
+          · split
+            · rename_i r t _; cases r <;> simp
+            · exact ih _ _ _
+
+/-- **a wait interrupted by shutdown ends shutdown-classified**: the attempt failed with a retryable
+error, the next attempt would fit budget and deadline, shutdown arrives before the retry instant
+(possibly already during the attempt) and not after a cancellation of the request context that
+itself interrupts the wait: `Send` returns after this attempt with a shutdown-classified error at the
+instant of the shutdown (or of the attempt's return when shutdown was already pending). -/
+theorem C05_shutdown_classified (c : Cfg) (e : Env) (now cur : Nat) (p : List Nat) (a : Attempt) (as : List Attempt)
+    (fin sd : Nat) (hfin : finish c e now a = some fin) (hen : c.enabled = true) (hok : a.ok = false) (hperm : a.perm = false)
+    (hbudget : c.maxElapsed = 0 ∨ fin + waitAfter c cur a ≤ c.maxElapsed)
+    (hdl : ∀ d, e.deadline = some d → fin + waitAfter c cur a ≤ d)
+    (hsd : e.shutdown = some sd) (hlt : sd < fin + waitAfter c cur a)
+    (hctx : ∀ x, e.ctxDone = some x → sd ≤ fin ∨ (fin < x ∧ sd ≤ x)) :
+    run c e now cur p (a :: as) =
+      { calls := [⟨now, fin, p⟩], reason := .shutdown, tEnd := max fin sd, sdFlag := true } := by
+  have haf : afterFailure c e fin (waitAfter c cur a) = some (.shutdown, max fin sd) := by
+    obtain ⟨dl, cn, sh⟩ := e
+    simp only at hsd; subst hsd
+    rcases Nat.eq_zero_or_pos c.maxElapsed with hE | hE
+    · cases dl <;> cases cn <;> simp [afterFailure, olt, ole, Env.ctxDone, omin, hE] at hdl hctx ⊢
+      all_goals (repeat' split) <;> (try simp) <;> omega
+    · cases dl <;> cases cn <;> simp [afterFailure, olt, ole, Env.ctxDone, omin] at hdl hctx ⊢
+      all_goals (repeat' split) <;> (try simp) <;> omega
+  simp only [waitAfter] at haf
+  simp [run, hfin, hen, hok, hperm, haf]
+
+/-- a shutdown-classified result only arises from shutdown -/
+theorem C05_shutdown_only_from_shutdown (c : Cfg) (e : Env) (s : List Attempt) : ∀ (now cur : Nat) (p : List Nat),
+    (run c e now cur p s).reason = .shutdown → ∃ sd, e.shutdown = some sd ∧ sd ≤ (run c e now cur p s).tEnd := by
+  induction s with
+  | nil => intro now cur p; simp [run]
+  | cons a as ih =>
+    intro now cur p
+    simp only [run]
+    split
+    · simp
+    · split
+      · simp
+      · split
+        · simp
+        · split
+          · simp
+          · split
+            · rename_i fin _ _ _ _ r t haf
+              intro hr
+              simp only at hr; subst hr
+              obtain ⟨dl, cn, sh⟩ := e
+              cases dl <;> cases cn <;> cases sh <;> simp [afterFailure, olt, ole, Env.ctxDone, omin] at haf ⊢
+              all_goals (repeat' split at haf) <;> simp_all <;> omega
+            · exact ih _ _ _
+
+/-! ## error chains: classification survives wrapping -/
+
+theorem findList_isSome_of_mem {α : Type} (f : Err → Option α) (e : Err) : ∀ (es : List Err), e ∈ es → (e.find f).isSome = true →
+    (Err.findList f es).isSome = true := by
+  intro es
+  induction es with
+  | nil => intro h; simp at h
+  | cons x xs ih =>
+    intro hmem hs
+    simp only [Err.findList]
+    cases hx : x.find f with
+    | some v => simp
+    | none =>
+      rcases List.mem_cons.mp hmem with h | h
+      · subst h; rw [hx] at hs; simp at hs
+      · simpa using ih h hs
+
+theorem find_wrapper {α : Type} (f : Err → Option α) (w : Wrapper) (e : Err) (h : (e.find f).isSome = true) :
+    ((w.apply e).find f).isSome = true := by
+  cases w with
+  | wrap =>
+    simp only [Wrapper.apply, Err.find]
+    cases f (.wrap e) <;> simp [h]
+  | joinLeft os =>
+    simp only [Wrapper.apply, Err.find]
+    cases f (.join (os ++ [e])) with
+    | some v => simp
+    | none => simpa using findList_isSome_of_mem f e (os ++ [e]) (by simp) h
+  | joinRight os =>
+    simp only [Wrapper.apply, Err.find]
+    cases f (.join (e :: os)) with
+    | some v => simp
+    | none => simpa using findList_isSome_of_mem f e (e :: os) (by simp) h
+
+/-- `experr.IsShutdownErr` stays true under any stack of `fmt.Errorf("%w")` / `errors.Join` / `multierr` wrappers -/
+theorem C05_shutdown_survives_wrapping (ws : List Wrapper) (e : Err) (h : e.isShutdown = true) :
+    (ws.foldr Wrapper.apply e).isShutdown = true := by
+  induction ws with
+  | nil => exact h
+  | cons w ws ih => exact find_wrapper _ w _ ih
+
+/-- `consumererror.IsPermanent` likewise -/
+theorem C05_permanent_survives_wrapping (ws : List Wrapper) (e : Err) (h : e.isPermanent = true) :
+    (ws.foldr Wrapper.apply e).isPermanent = true := by
+  induction ws with
+  | nil => exact h
+  | cons w ws ih => exact find_wrapper _ w _ ih
+
+/-- `experr.NewShutdownErr(err)` is shutdown-classified whatever `err` is -/
+theorem C05_shutdownErr_classified (e : Err) : (Err.shutdown e).isShutdown = true := by
+  simp [Err.isShutdown, Err.find]
+
+/-- the retry sender's own `fmt.Errorf("…: %w", err)` wrappers neither add nor remove permanence -/
+theorem C05_wrap_keeps_permanence (e : Err) : (Err.wrap e).isPermanent = e.isPermanent := by
+  simp [Err.isPermanent, Err.find]
+
+/-! ## non-vacuity -/
+
+/-- the DESIGN probe: 1 s × 2, cap 10 s, budget 60 s, all transient: attempts at 0,1,3,7,15,25,35,45,55 s -/
+def exCfg : Cfg := { enabled := true, initial := 1, maxInt := 10, maxElapsed := 60, mulNum := 2, mulDen := 1, rfNum := 0, rfDen := 1, timeout := 0 }
+
+example : ((send exCfg {} [1, 2] (List.replicate 12 {})).calls.map (·.t), (send exCfg {} [1, 2] (List.replicate 12 {})).reason)
+    = ([0, 1, 3, 7, 15, 25, 35, 45, 55], .exhausted) := by decide
+
+/-- the retry condition is met by a transient failure under `exCfg` and refuted by shutdown during the wait -/
+example : RetryCond exCfg {} 0 0 {} 0 := by
+  refine ⟨by decide, rfl, rfl, rfl, ?_⟩
+  simp [FitsAll, waitAfter, waitOf, backoffDelay, curInterval, exCfg]
+
+example : (send exCfg { shutdown := some 2 } [1] (List.replicate 3 {})) =
+    { calls := [⟨0, 0, [1]⟩, ⟨1, 1, [1]⟩], reason := .shutdown, tEnd := 2, sdFlag := true } := by decide
+
+/-- throttle 7 honoured over interval 1; partial failure narrows the payload; permanent stops -/
+example : (send exCfg {} [1, 2, 3] [{ throttle := some 7 }, { rest := some [2] }, {}, { perm := true }]).calls.map (fun cl => (cl.t, cl.payload))
+    = [(0, [1, 2, 3]), (7, [1, 2, 3]), (9, [2]), (13, [2])] := by decide
+
+/-- zero initial interval and shutdown during the first attempt: no further attempt (the repaired behaviour) -/
+example : (send { exCfg with initial := 0, maxElapsed := 0 } { shutdown := some 1 } [1] [{ dur := 2 }, {}, {}]) =
+    { calls := [⟨0, 2, [1]⟩], reason := .shutdown, tEnd := 2, sdFlag := true } := by decide
+
+example : exCfg.valid := by simp [Cfg.valid, exCfg]
+
+example : (Wrapper.apply (.joinLeft [.leaf]) (.wrap (.shutdown (.throttle 3 .leaf)))).isShutdown = true := by decide
+
+/-! ## the search oracle is sound for the property's observable clauses -/
+
+/-- what an accepted observation satisfies (the property's observable clauses, stated on the call sequence) -/
+def ObservedGood (c : Cfg) (e : Env) (payload : List Nat) (script : List Attempt) (o : Observed) : Prop :=
+  let callAt (k : Nat) : Nat × List Nat := o.calls.getD k (0, [])
+  let att (k : Nat) : Attempt := script.getD k { ok := true }
+  let finOf (k : Nat) : Nat := (finish c e (callAt k).1 (att k)).getD (callAt k).1
+  (c.enabled = false → o.calls.length ≤ 1) ∧
+  (∀ k, k + 1 < o.calls.length → (att k).ok = false ∧ (att k).perm = false) ∧
+  (∀ k, 0 < k → k < o.calls.length → ∀ sd, e.shutdown = some sd → (callAt k).1 ≤ sd) ∧
+  (∀ k, 0 < k → k < o.calls.length → 0 < c.maxElapsed → (callAt k).1 ≤ c.maxElapsed) ∧
+  (∀ k, k + 1 < o.calls.length → finOf k + (att k).throttle.getD 0 ≤ (callAt (k + 1)).1) ∧
+  (∀ k, k + 1 < o.calls.length → (callAt (k + 1)).2 = (att k).rest.getD (callAt k).2) ∧
+  (0 < o.calls.length → (callAt 0).2 = payload)
+
+theorem ite_sing_nil {α : Type} {p : Prop} [Decidable p] {x : α} : (if p then [x] else []) = [] ↔ ¬p := by
+  split <;> simp [*]
+
+theorem C05_check_sound (c : Cfg) (e : Env) (payload : List Nat) (script : List Attempt) (o : Observed)
+    (h : checkObserved c e payload script o = []) : ObservedGood c e payload script o := by
+  simp only [checkObserved, List.append_eq_nil_iff] at h
+  obtain ⟨⟨⟨⟨⟨⟨⟨⟨⟨⟨⟨⟨⟨h1, h2⟩, h3⟩, h4⟩, h5⟩, h6⟩, h7⟩, h8⟩, h9⟩, h10⟩, h11⟩, h12⟩, h13⟩, h14⟩ := h
+  have g3 := ite_sing_nil.1 h3
+  have g4 := ite_sing_nil.1 h4
+  have g5 := ite_sing_nil.1 h5
+  have g6 := ite_sing_nil.1 h6
+  have g8 := ite_sing_nil.1 h8
+  have g9 := ite_sing_nil.1 h9
+  have g11 := ite_sing_nil.1 h11
+  simp only [List.any_eq_true, List.mem_range, not_exists, not_and, decide_eq_true_eq, Bool.not_eq_true] at g4 g5 g6 g8 g9 g11
+  refine ⟨?_, ?_, ?_, ?_, ?_, ?_, ?_⟩
+  · intro hen; simp [hen] at g3; exact g3
+  · intro k hk
+    have a := g4 k (by omega); have b := g5 k (by omega)
+    simp only [hk] at a b
+    cases hok : (script.getD k { ok := true }).ok <;> simp_all
+  · intro k hk0 hkn sd hsd
+    have a := g6 k hkn
+    simp [hk0, olt, hsd] at a; exact a
+  · intro k hk0 hkn hE
+    have a := g8 k hkn
+    simp [hk0, hE] at a; exact a
+  · intro k hk
+    have a := g9 k (by omega)
+    simp [hk] at a; simpa [hk] using a
+  · intro k hk
+    have a := g11 k (by omega)
+    simp [hk] at a; simpa [hk] using a
+  · intro hn
+    have a := ite_sing_nil.1 h2
+    by_cases hp : (o.calls.getD 0 (0, [])).2 = payload
+    · exact hp
+    · exact absurd ⟨hp, hn⟩ a
+
+
+/-- the oracle accepts the model's own trace of the probe and rejects a retry made after shutdown -/
+example : checkObserved exCfg {} [1, 2] (List.replicate 12 {})
+    { calls := [0, 1, 3, 7, 15, 25, 35, 45, 55].map (fun t => (t, [1, 2])), tEnd := 55, isNil := false, permFlag := false, sdFlag := false } = [] := by decide
+
+example : checkObserved { exCfg with initial := 0, maxElapsed := 0 } { shutdown := some 1 } [1] [{ dur := 2 }, { dur := 2 }, {}]
+    { calls := [(0, [1]), (2, [1])], tEnd := 4, isNil := false, permFlag := false, sdFlag := true } = ["C05/retry/attempt-after-shutdown"] := by decide
+
 end OtelVerif.C05
